@@ -19,7 +19,7 @@ from harness import gq, gen, implrun
 HEADER = """Require Import List ZArith QArith String.
 From PV.DSL Require Import Syntax.
 From PV.Gen Require Import Algorithms_gen.
-From PV.Alg Require Import SemExec TruncTie.
+From PV.Alg Require Import SemExec TruncTie TruncTieNH.
 Import ListNotations.
 Open Scope string_scope.
 """
@@ -83,10 +83,17 @@ def coq_inputs_term(case, series):
     """inputs_ok of Alg/TruncTie.v: with check_alg = true it makes C01_tie_conclusions applicable to this case
     (general wiring, i.e. not the two-block optimisation); None when the theorem is not stated for the case."""
     bl, K, cb, El, tb = wiring_tables(case)
-    if tb or not case["hermitian"]:
-        return None
     D = len(case["sub"])
     sols = "[" + ";".join("(%s, %s)" % (cstr(n), cser(S)) for n, S in sorted(series.items())) + "]"
+    if not case["hermitian"]:
+        # non-Hermitian algorithm: side conditions of C05_tie_similarity_partial (any wiring flag)
+        return ("(nh_inputs_ok %d %d %d [%s]%%nat [%s] [%s] [%s]%%Q (%s)%%Q)"
+                % (D, case["nparam"], case["N"], ";".join(str(b) for b in bl),
+                   ";".join("[" + ";".join("true" if x else "false" for x in r) + "]" for r in K),
+                   ";".join("true" if x else "false" for x in cb),
+                   ";".join(cg(e) for e in El), sols))
+    if tb:
+        return None
     return ("(inputs_ok %d %d %d [%s]%%nat [%s] [%s] [%s]%%Q (%s)%%Q)"
             % (D, case["nparam"], case["N"], ";".join(str(b) for b in bl),
                ";".join("[" + ";".join("true" if x else "false" for x in r) + "]" for r in K),
@@ -130,7 +137,7 @@ def tie_semeq(ctx, hermitian=True, ncases=None, N=None):
             continue
         cases.append(c)
         terms.append(coq_term(c, series, alg))
-        it = coq_inputs_term(c, series) if hermitian else None
+        it = coq_inputs_term(c, series)
         if it is not None:
             iterms.append(it)
             iidx.append(len(cases) - 1)
@@ -147,7 +154,11 @@ def tie_semeq(ctx, hermitian=True, ncases=None, N=None):
         ibad = set(core.coq_eval_cases("semeq_inputs", HEADER, iterms, shard=max(1, len(iterms) // 14 + 1), timeout=1500, jobs=14))
         badset = set(bad)
         applies = sum(1 for j, ci in enumerate(iidx) if j not in ibad and ci not in badset)
-        sigs["C01_tie_conclusions applies (check_alg && inputs_ok)"] = "%d of %d general-wiring cases" % (applies, len(iterms))
+        if hermitian:
+            sigs["C01_tie_conclusions applies (check_alg && inputs_ok)"] = "%d of %d general-wiring cases" % (applies, len(iterms))
+        else:
+            sigs["C05_tie_conclusions applies (check_alg)"] = "%d of %d cases" % (len(cases) - len(badset), len(cases))
+            sigs["C05_tie_similarity_partial applies (check_alg && nh_inputs_ok: kept pairs have equal energies)"] = "%d of %d cases" % (applies, len(iterms))
     return dict(cases=len(cases), nontrivial=len({gq_canon(c) for c in cases if len(c["sub"]) >= 2}),
                 rule="random exact problems (dim<=5, blocks<=3, params<=2, order<=%d), ALL named series of %s_alg loaded into Coq and checked against every equation of Sem by vm_compute; non-trivial = distinct with dim>=2" % (N, alg),
                 samples=[gen.case_signature(c) for c in cases[:3]], distribution=sigs, disagreements=dis)
